@@ -2,6 +2,7 @@
 
 from __future__ import annotations
 
+from copy import deepcopy
 from typing import TYPE_CHECKING, Any, ClassVar
 from warnings import warn
 
@@ -316,6 +317,7 @@ class ExchangeContext(DisplacementContext):
         "_added_indices",
         "_deleted_atoms",
         "_deleted_indices",
+        "_saved_constraints",
         "accessible_volume",
         "chemical_potential",
         "exchange_atoms",
@@ -342,6 +344,7 @@ class ExchangeContext(DisplacementContext):
         self._added_atoms: Atoms = Atoms()
         self._deleted_indices: IntegerArray = []
         self._deleted_atoms: Atoms = Atoms()
+        self._saved_constraints: list | None = None
 
         self.particle_delta = 0
 
@@ -357,8 +360,17 @@ class ExchangeContext(DisplacementContext):
 
             reinsert_atoms(self.atoms, self._deleted_atoms, self._deleted_indices)
 
+            if self._saved_constraints is not None:
+                self.atoms.constraints = self._saved_constraints
+
         super().revert_state()
         self.reset()
+
+    def remember_constraints(self) -> None:
+        """Remember the constraints before atoms are deleted, deleting atoms re-indexes
+        them in place, they are restored if the deletion is reverted."""
+        if self._saved_constraints is None:
+            self._saved_constraints = deepcopy(self.atoms.constraints)
 
     def save_state(self) -> None:
         """Save the current state of the context, including the number of exchange
